@@ -294,9 +294,13 @@ def run_tokens(ctx):
             t2 = rng.choice([t[:i] + rng.choice(TOK_ALPHA) + t[i:], t[:i] + t[i + 1:], t[:i] + rng.choice(TOK_ALPHA) + t[i + 1:]])
             if t2:
                 toks.append(t2)
-    for n in (4299, 4300, 4301, 5000):
-        toks += ["1" * n, "9" * n + "L", "0x" + "f" * n, "0o" + "7" * n, "0b" + "1" * n, "0" * n, "1" * n + "j",
-                 "1" * n + ".5", "0" + "7" * n, "1_" * (n // 2) + "1"]
+    if ctx.tier == "quick":
+        toks += ["1" * 4300, "1" * 4301, "9" * 4301 + "L", "0x" + "f" * 4301, "0" + "7" * 4301, "1" * 4301 + "j",
+                 "1" * 4301 + ".5", "1_" * 2150 + "1", "1_" * 2150 + "11"]
+    else:
+        for n in (4299, 4300, 4301, 5000):
+            toks += ["1" * n, "9" * n + "L", "0x" + "f" * n, "0o" + "7" * n, "0b" + "1" * n, "0" * n, "1" * n + "j",
+                     "1" * n + ".5", "0" + "7" * n, "1_" * (n // 2) + "1"]
     toks = [t for t in dict.fromkeys(toks) if t and t[0] not in "+-"]
     r = cybuild.run_script(TOKRUN, os.path.join(ctx.workdir, "tok"), {"tokens": toks}, name="tokrun.py", timeout=1200)
     if r["json"] is None:
@@ -690,10 +694,13 @@ def shrink(ctx, src, ext, klass, rounds=8):
 
 
 def run_programs(ctx):
+    here = os.path.dirname(os.path.abspath(__file__))
+    if here not in sys.path:
+        sys.path.insert(0, here)
     import C43_gen
     rng = ctx.rng
     quick = ctx.tier == "quick"
-    n_gen, n_lit, n_mut = (36, 10, 40) if quick else (700, 150, 900)
+    n_gen, n_lit, n_mut = (14, 4, 14) if quick else (300, 60, 400)
     progs, meta = [], {}
     def add(kind, ext, src, forced=None):
         pid = "%s%d" % (kind[0], len(progs))
@@ -741,10 +748,10 @@ def run_programs(ctx):
             unknown[k] = (src, ext)
     ctx.extra["outcome_histogram"] = {"%s/%s" % k: v for k, v in sorted(hist.items())}
     # shrink what is new (bounded) so that the replay file carries a small program
-    for k, (src, ext) in list(unknown.items())[:3]:
+    for k, (src, ext) in list(unknown.items())[:1 if quick else 4]:
         if len(src) < 200:
             continue
-        small = shrink(ctx, src, ext, k, rounds=6 if quick else 12)
+        small = shrink(ctx, src, ext, k, rounds=3 if quick else 10)
         if small != src:
             ctx.note("shrunk %s from %d to %d chars:\n%s" % (k, len(src), len(small), small[:1500]))
             for f in ctx.prop_failures:
@@ -759,6 +766,9 @@ def run(ctx):
         run_tokens(ctx)
     if os.environ.get("C43_DEV") != "tokens":
         run_programs(ctx)
+    if os.environ.get("C43_DEV"):
+        with open("/tmp/c43/fails.json", "w") as f:
+            json.dump({"fails": ctx.prop_failures, "corr": ctx.corr_breaks, "notes": ctx.notes}, f)
     ctx.extra["allowlist"] = [p for p, _ in ALLOW] + ["PEP 695 syntax (documented unsupported)"]
     ctx.extra["fix_flags"] = {"FX_IMAG": FX_IMAG, "FX_INTCHK": FX_INTCHK}
 
